@@ -135,3 +135,7 @@ def _open_recover(V):
             V.ensure(f"post[append]/chain-still-well-formed/{lab}", z3.Implies(z3.And(j >= 0, j < ch.n), f))
     else:
         V.ensure("post[read]/file-unchanged", F2 == F)
+
+
+# after recovery the handle is Sync, which is put's precondition: the C02 contracts of put/get are part of this claim
+P.include(C02.P, ["molli.storage.ukvfile:UKVFile.put", "molli.storage.ukvfile:UKVFile.get"], why="appends after recovery read back")
